@@ -296,23 +296,35 @@ def r6_pass_through(ctx) -> None:
 
 def r7_subquery_finalisation(ctx) -> None:
     r, prog = ctx.r, ctx.prog
-    r.rule("C10.R7", "sub-queries of referenced rules are embedded unfinalised unless the backend opts in: convert_rule finalises a rule's queries iff finalize_correlation_subqueries or the rule has no back-references")
-    f = prog.func(B + ".convert_rule")
-    ifexps = [n for n in walk_no_nested(f.node) if isinstance(n, ast.IfExp) and "finalize_query" in unparse(n.body)]
-    if len(ifexps) == 1:
-        t = unparse(ifexps[0].test)
-        loc = f"{f.module.relpath}:{ifexps[0].lineno}"
-        if t == "self.finalize_correlation_subqueries or not rule._backreferences" and unparse(ifexps[0].orelse) == "queries":
-            r.ok("C10.R7", f.qual, "finalised iff finalize_correlation_subqueries or not rule._backreferences; else raw queries", loc)
+    r.rule("C10.R7", "what is embedded and what is emitted, in both per-rule converters (plain and correlation rules alike): the stored conversion result is the raw query list iff the backend does not finalise sub-queries and the rule is referenced (embed_raw), the finalised list otherwise; the returned queries are always the finalised ones, and they are computed whenever the rule emits output")
+    for fn in ("convert_rule", "convert_correlation_rule"):
+        f = prog.func(f"{B}.{fn}")
+        loc = f.loc
+        emb = [n for n in walk_no_nested(f.node) if isinstance(n, ast.Assign) and unparse(n.targets[0]) == "embed_raw"]
+        if len(emb) == 1 and unparse(emb[0].value) == "not self.finalize_correlation_subqueries and bool(rule._backreferences)":
+            r.ok("C10.R7", f.qual, "embed_raw = not finalize_correlation_subqueries and the rule is referenced", f"{f.module.relpath}:{emb[0].lineno}")
         else:
-            r.violation("C10.R7", f.qual, f"finalise if {t}",
-                        "whether a referenced rule's queries are finalised/post-processed before they are embedded must depend on the backend switch and on being referenced at all, not on the output switch "
-                        "(a rule referenced with generate: true keeps its output and would be embedded already wrapped by post-processing)", loc)
-    else:
-        r.violation("C10.R7", f.qual, "finalized_queries = [...] if … else queries", "finalisation switch not found", f.loc)
+            r.violation("C10.R7", f.qual, "embed_raw = not self.finalize_correlation_subqueries and bool(rule._backreferences)",
+                        "whether a referenced rule's queries are embedded raw must depend on the backend switch and on being referenced — for plain and for correlation rules alike (a nested correlation that is always finalised is embedded already wrapped by post-processing)", loc)
+            continue
+        ifexps = [n for n in walk_no_nested(f.node) if isinstance(n, ast.IfExp) and "finalize_query" in unparse(n.body)]
+        if len(ifexps) == 1 and unparse(ifexps[0].test) == "not embed_raw or rule._output" and unparse(ifexps[0].orelse) == "[]":
+            r.ok("C10.R7", f.qual, "finalised queries are computed whenever they are stored or emitted", f"{f.module.relpath}:{ifexps[0].lineno}")
+        else:
+            r.violation("C10.R7", f.qual, "finalized_queries = [...] if not embed_raw or rule._output else []", "finalised queries are not computed for every case in which they are stored or emitted", loc)
+        stores = [c for c in walk_no_nested(f.node) if isinstance(c, ast.Call) and call_name(c) == "rule.set_conversion_result"]
+        if len(stores) == 1 and unparse(stores[0].args[0]) == "queries if embed_raw else finalized_queries":
+            r.ok("C10.R7", f.qual, "stored result: raw iff embed_raw", f"{f.module.relpath}:{stores[0].lineno}")
+        else:
+            r.violation("C10.R7", f.qual, "rule.set_conversion_result(queries if embed_raw else finalized_queries)", "the stored (embedded) result is not the raw list exactly when embed_raw", loc)
+        rets = [x for x in walk_no_nested(f.node) if isinstance(x, ast.Return) and x.value is not None and unparse(x.value) in ("finalized_queries", "queries")]
+        if rets and all(unparse(x.value) == "finalized_queries" and ("rule._output", True) in atomic_guards(guards_at(prog, f, x)) for x in rets):
+            r.ok("C10.R7", f.qual, "returns the finalised queries, under rule._output", loc)
+        else:
+            r.violation("C10.R7", f.qual, "return finalized_queries", "a rule that emits output (generate: true) returns its raw query: no finalize_query_<format>, no post-processing items", loc)
     a = prog.lookup_class_attr(B, "finalize_correlation_subqueries")
     if a and unparse(a[1].value) == "False":
         r.ok("C10.R7", B, "finalize_correlation_subqueries defaults to False")
     else:
         r.violation("C10.R7", B, "finalize_correlation_subqueries default", "sub-query finalisation must be opt-in")
-    r.floor("C10.R7", 2)
+    r.floor("C10.R7", 9)
